@@ -2,6 +2,8 @@
 package rules
 
 import (
+	"golang.org/x/tools/go/ssa"
+
 	"verifchk/internal/core"
 )
 
@@ -11,6 +13,8 @@ type Ctx struct {
 	G    *core.Graph
 	R    *core.Report
 	Tier string
+
+	lookupPath map[*ssa.Function]bool
 }
 
 // RuleFunc runs all rules of one property.
